@@ -329,3 +329,17 @@ Definition resolve (cid : key) (s : src) : pv := normalize (resolve_src cid s).
 
 (** the count variables a value switches on, with their kind *)
 Definition count_keys (v : pv) : list (key * rop) := ev_counts (events v).
+
+(** * Keys captured by the closure of a range / plural (code generation)
+
+    `to_tokens_integers`, `to_tokens_floats` (leptos_i18n_macro/src/load_locales/ranges.rs) and `plurals::to_token_stream`
+    collect the keys their `move ||` closure must clone first by folding `get_keys_inner(.., is_top = false)` over the
+    branches, starting from `Lit(String)`; after fixes/C08-count-moved-into-range-closure.diff the count key is added. *)
+Definition branch_keys (bs : list pv) : kres := fold_res (fun x s => gki x s false) bs (ILit LString).
+Definition closure_keys (ck : key) (bs : list pv) : kres :=
+  match branch_keys bs with
+  | KOk s => KOk (IInterpol (push_var ck 0 (ikm s)))
+  | e => e
+  end.
+(** the same fold with `is_top = true` (a seeded variant, not the repository's code): a literal-only branch resets it *)
+Definition branch_keys_top (bs : list pv) : kres := fold_res (fun x s => gki x s true) bs (ILit LString).
